@@ -58,6 +58,8 @@ pub fn stark_verify<Layout: LayoutTrait>(
         &witness.composition_decommitment,
     );
 
+    #[cfg(swiftness_verif)]
+    swiftness_transcript::verif::ev("deep").fs("evals", oods_poly_evals.iter()).emit();
     // Decommit FRI.
     let fri_decommitment = types::Decommitment { values: oods_poly_evals, points };
     Ok(fri_verify(queries, commitment.fri, fri_decommitment, witness.fri_witness.to_owned())?)
